@@ -63,17 +63,17 @@ class Stall(object):
         if not self.active:
             if env.wire or env.frames_seen < self.frame:
                 return None
-            if env.frames_seen == self.frame and not env.dev.ready_queues(env.clock.now) and self.kind in ('trickle', 'unexpected', 'wrte', 'wrte0'):
+            if env.frames_seen == self.frame and not env.dev.ready_queues(env.clock.now) and self.kind in ('trickle', 'trickle-eof', 'unexpected', 'wrte', 'wrte0'):
                 return None                   # the awaited frame does not exist yet (host has to write first)
             self.active = True
             self.t0 = env.clock.now
             self.calls0 = env.calls
             self.ev0 = len(env.events)
-            if self.kind in ('trickle', 'unexpected', 'wrte', 'wrte0'):
+            if self.kind in ('trickle', 'trickle-eof', 'unexpected', 'wrte', 'wrte0'):
                 fr = env._frame()
                 if fr is not None:
                     self.ids = (int.from_bytes(fr[4:8], 'little'), int.from_bytes(fr[8:12], 'little'))
-                    if self.kind == 'trickle':
+                    if self.kind in ('trickle', 'trickle-eof'):
                         j = self.j if self.j >= 0 else len(fr) + self.j
                         self.buf = bytearray(fr[:max(0, min(j, len(fr) - 1))])
         k = self.kind
@@ -81,6 +81,11 @@ class Stall(object):
             return self.timeout(env, timeout)
         if k == 'eof':
             return b''
+        if k == 'trickle-eof':
+            # the first j bytes of the awaited frame arrive at once, then the peer's sending side is closed: empty reads, no exception
+            out = bytes(self.buf[:n])
+            del self.buf[:n]
+            return out
         if k == 'trickle':
             if not self.buf:
                 return self.timeout(env, timeout)
